@@ -14,8 +14,11 @@ Clauses (bands frozen in vlib/c10_band.json after calibration on the unchanged t
   R2  lower <= num_RC <= upper for every (suggestion, limits) tuple that suggest_num_RC returned during the run and
       for the returned result; same for the public perform_exploratory_kramers_kronig_tests + suggest_num_RC route
       (run on a sampled subset)
-  R3  estimated / injected noise inside the wide per-run limits [0.25, 6]
  per cell = (circuit | ladder family, noise level), >= 8 seeds (fewer => that cell is INCONCLUSIVE, never "held")
+  A0  at most ONE run of the cell has estimated / injected noise outside the wide per-run limits [0.25, 6]
+      (first contact: the heuristics of the unchanged tree miss on roughly 1 run in 3000 - e.g. 9.2 x for an ideal
+      single-arc RC spectrum whose chi2(num_RC) curve is a staircase - so a zero-tolerance per-run clause is a
+      false-alarm generator; every such run is counted in the evidence)
   A1  median over seeds of estimated / injected noise inside [0.5, 3.0]
   A2  (cells at the lowest noise level that have a bundled *_INVALID counterpart, same seeds)
       median over seeds of chi2(invalid) / chi2(valid) >= 5
@@ -23,13 +26,13 @@ Clauses (bands frozen in vlib/c10_band.json after calibration on the unchanged t
   A3  the realised noise  (Z_noisy - Z_ideal) / (pct/100 * |Z_ideal|)  has rms 1 and mean 0 in the real and in the
       imaginary part, also on the subsets of points where |Re Z| < |Z|/2 and where |Im Z| < |Z|/2
 
-Mechanism keys: R3 violations whose reported limits are exactly (2, number of points) - the structural signature of the
-"possibly a single resistor or capacitor" shortcut of suggest_num_RC_limits - carry the suffix
+Mechanism keys: an A0 violation all of whose out-of-limit runs reported the limits (2, number of points) - the structural
+signature of the "possibly a single resistor or capacitor" shortcut of suggest_num_RC_limits - carries the suffix
 ':single-R-or-C-shortcut-limits' (open finding for ladder spectra with very small dispersion, see known_findings.json);
-every other R3 violation keeps the plain family key and is a VIOLATION.
+every other A0 violation keeps the plain family key and is a VIOLATION.
 
 Latitude: which representation, extension or num_RC is picked is free as long as the clauses hold; nothing is demanded
-of a single unlucky seed beyond R1-R3; the drift clause is not evaluated above the lowest noise level (the drift is
+of a single unlucky seed beyond R1-R2; the drift clause is not evaluated above the lowest noise level (the drift is
 legitimately buried at 1 %); the fit error against the noise-free spectrum is reported, not judged.
 """
 import json
@@ -71,6 +74,7 @@ MEDIAN_BAND = tuple(BAND["median_band"])
 RUN_BAND = tuple(BAND["per_run_band"])
 DRIFT_MIN = float(BAND["drift_min_median_chisqr_ratio"])
 MIN_SEEDS = int(BAND["min_seeds_per_cell"])
+MAX_OUT = int(BAND["max_runs_outside_per_run_band_per_cell"])
 NM_RMS = tuple(BAND["noise_model"]["rms_band"])
 NM_MEAN = float(BAND["noise_model"]["abs_mean_max"])
 NM_MIN_N = int(BAND["noise_model"]["min_pooled_points"])
@@ -355,17 +359,11 @@ def run_one(case):
         viol.append(_viol("C10/num_RC-outside-reported-limits:returned",
                           f"{case['ident']} noise={pct} seed={case['seed']}: perform_kramers_kronig_test returned num_RC={res.num_RC} "
                           f"(admittance={res.admittance}) but the limits reported for that representation are [{lim[0]}, {lim[1]}]", case))
-    # R3
+    # per-run limits: recorded here, judged per cell (A0)
+    rec["shortcut"] = bool(lim is not None and lim[0] == 2 and lim[1] == rec["n"])
+    rec["out"] = None
     if not case["invalid"] and not (RUN_BAND[0] <= rec["ratio"] <= RUN_BAND[1]):
-        side = "low" if rec["ratio"] < RUN_BAND[0] else "high"
-        where = case["family"]
-        if lim is not None and lim[0] == 2 and lim[1] == rec["n"]:
-            # structural signature of suggest_num_RC_limits' "possibly a single resistor or capacitor" shortcut:
-            # reported limits == (smallest num_RC, number of points)
-            where += ":single-R-or-C-shortcut-limits"
-        viol.append(_viol(f"C10/noise-estimate-per-run:{side}:{where}",
-                          f"{case['ident']} noise={pct} % seed={case['seed']}: estimated noise {est:.5g} % = {rec['ratio']:.3g} x injected "
-                          f"(hard per-run limits {RUN_BAND}); num_RC={res.num_RC} admittance={res.admittance} log_F_ext={rec['log_F_ext']:.3g}", case))
+        rec["out"] = "low" if rec["ratio"] < RUN_BAND[0] else "high"
     return rec, viol
 
 
@@ -467,6 +465,8 @@ def run_case(case):
             maxobs["per_run_inv_ratio_max" + tag] = 1.0 / rec["ratio"] if rec["ratio"] > 0 else float("inf")
             if tag:
                 stats["runs_with_single-R-or-C-shortcut-limits"] = 1
+            if rec.get("out"):
+                stats[f"runs_outside_per_run_limits:{rec['out']}{tag}"] = 1
             if "truth_err" in rec:
                 maxobs["fit_error_vs_noise_free_in_noise_units"] = rec["truth_err"]
     planned = {"cell": case["cell"]}
@@ -516,8 +516,20 @@ def _aggregate(items, planned_cells=None):
         te = [r["truth_err"] for r in rs if "truth_err" in r]
         if te:
             row["median_fit_error_vs_noise_free"] = float(np.median(te))
+        outs = [r for r in rs if r.get("out")]
+        row["runs_outside_per_run_limits"] = len(outs)
         table[cell] = row
         n_a1 += 1
+        if len(outs) > MAX_OUT:
+            side = "high" if sum(r["out"] == "high" for r in outs) * 2 >= len(outs) else "low"
+            sig = ":single-R-or-C-shortcut-limits" if all(r.get("shortcut") for r in outs) else ""
+            viol.append({"key": f"C10/noise-estimate-outliers:{side}:{rs[0]['family']}{sig}",
+                         "msg": f"cell {cell}: {len(outs)} of {len(rs)} runs have estimated/injected noise outside the per-run limits {RUN_BAND} "
+                                f"(allowed {MAX_OUT}): " + ", ".join(f"{r['ratio']:.3g} (seed {r['seed']}, num_RC {r['num_RC']} in [{r.get('lower')},"
+                                                                     f"{r.get('upper')}], {'Y' if r['adm'] else 'Z'})" for r in outs[:8]),
+                         "witness": {"cell": cell, "outliers": [{k: r.get(k) for k in ("ident", "kwargs", "noise", "seed", "ratio", "num_RC", "lower",
+                                                                                       "upper", "adm", "log_F_ext")} for r in outs],
+                                     "replay_case": {"kind": "cells", "runs": cases_of.get(cell, [])}}})
         if not (MEDIAN_BAND[0] <= med <= MEDIAN_BAND[1]):
             side = "low" if med < MEDIAN_BAND[0] else "high"
             viol.append({"key": f"C10/noise-estimate-median:{side}:{cell}",
